@@ -687,6 +687,10 @@ def judge_real(c, r):
         if len(execd) != len(set(execd)):
             bad.append(("C01", "real backend %s: a task ran twice: %s" % (c["backend"], sorted(execd))))
         if call.get("abandoned"):
+            if c.get("slow") and (call.get("close_s") or 0) > 5.0:
+                bad.append(("C16", "real backend %s%s: closing/dropping the generator took %.1f s: it waited for the running tasks "
+                                   "(%.0f s each) instead of stopping them" % (
+                                       c["backend"], " inside a with block" if c.get("with_block") else "", call["close_s"], c["slow"])))
             idx = [v[1] for v in call["values"]]
             okp = (idx == list(range(len(idx)))) if c["return_as"] == "generator" else (len(set(idx)) == len(idx) and all(0 <= i < c["N"] for i in idx))
             if not okp or any(v[0] != cn for v in call["values"]):
@@ -788,6 +792,10 @@ def fixed_real_cases():
             for verbose in (1, 60):
                 out.append(dict(base, backend=backend, n_jobs=nj, N=N, tfail=[], sized=True, verbose=verbose,
                                 return_as="list" if backend == "multiprocessing" or verbose == 1 else "generator"))
+    # the generator is closed / dropped while tasks of 8 s are running: it must come back without waiting for them
+    for backend, managed, how in (("loky", True, "close"), ("loky", False, "drop"), ("threading", True, "close")):
+        out.append(dict(base, backend=backend, n_jobs=3, N=6, tfail=[], return_as="generator", abandon=[how, 0],
+                        with_block=managed, slow=8.0, batch_size=1))
     for backend, nj in (("sequential", 1), ("threading", 1), ("threading", 2), ("loky", 2)):
         for how, npull in (("close", 0), ("drop", 0), ("close", 2)):
             out.append(dict(base, backend=backend, n_jobs=nj, tfail=[], return_as="generator", abandon=[how, npull]))
@@ -817,7 +825,7 @@ def real_sampling(ctx, quick, prop, fail_rate):
             if not got:
                 got = [{"harness_error": "inconclusive (timeout or crash of the sampling process)", "inconclusive": True}]
             last = got[-1]
-            slow_fail = any((cl.get("latency") or 0) > 5.0 for cl in last.get("calls", []))
+            slow_fail = any((cl.get("latency") or 0) > 5.0 or (cl.get("close_s") or 0) > 5.0 for cl in last.get("calls", []))
             if slow_fail and not last.get("hang"):
                 # the failure surfaced late: confirm on a second run before it counts
                 try:
@@ -825,7 +833,7 @@ def real_sampling(ctx, quick, prop, fail_rate):
                     again = [json.loads(l) for l in out.splitlines() if l.startswith("{")]
                 except subprocess.TimeoutExpired:
                     again = []
-                if again and not any((cl.get("latency") or 0) > 5.0 for cl in again[-1].get("calls", [])):
+                if again and not any((cl.get("latency") or 0) > 5.0 or (cl.get("close_s") or 0) > 5.0 for cl in again[-1].get("calls", [])):
                     got[-1] = again[-1]
             if got[-1].get("hang"):
                 try:
